@@ -11,6 +11,7 @@ for d in /tmp/seed/C*-out/mutant-*; do
     *d) prop=${p%d}; id="$prop-w4m$m" ;;
     *e) prop=${p%e}; id="$prop-w5m$m" ;;
     *f) prop=${p%f}; id="$prop-w6m$m" ;;
+    *g) prop=${p%g}; id="$prop-w7m$m" ;;
     *)  prop=$p; id="$p-m$m" ;;
   esac
   [ -f "seeded/$id/meta.json" ] && continue
